@@ -4,7 +4,6 @@
 //! There are lots of other ways this could go, including something serde-like
 //! where it gets serialized to more Rust-native structures, proc macros, etc.
 
-use std::borrow::Cow;
 use std::collections::{BTreeMap, BTreeSet, HashMap, HashSet};
 use std::ffi::OsStr;
 use std::hash::Hash;
@@ -21,7 +20,6 @@ use indexmap::{IndexMap, IndexSet};
 use kurbo::{Affine, CubicBez, Line, PathSeg, Point, QuadBez};
 use log::{debug, warn};
 use ordered_float::OrderedFloat;
-use regex::Regex;
 use smol_str::SmolStr;
 
 use crate::error::Error;
@@ -1519,7 +1517,7 @@ struct RawGlyph {
     kern_left: Option<SmolStr>,
     #[fromplist(alt_name = "rightKerningGroup")]
     kern_right: Option<SmolStr>,
-    unicode: Option<String>,
+    unicode: Option<RawCodepoints>,
     category: Option<SmolStr>,
     sub_category: Option<SmolStr>,
     #[fromplist(alt_name = "production")]
@@ -1527,6 +1525,50 @@ struct RawGlyph {
     parts_settings: Vec<RawPartSetting>,
     #[fromplist(ignore)]
     other_stuff: BTreeMap<String, Plist>,
+}
+
+/// The unparsed value of a glyph's `unicode` entry: comma separated codepoints.
+///
+/// Glyphs writes this in a variety of ways: a bare number (`0041`, `65`), a
+/// quoted string (`"2044,200D"`), or a list (`(1619,1764)`). The radix depends
+/// on the format version, which we may not have seen yet, so we only gather the
+/// text here. We read tokens, so the layout of the source (whitespace, line
+/// breaks, a quoted key) is irrelevant.
+#[derive(Default, Clone, Debug, PartialEq)]
+struct RawCodepoints(String);
+
+impl FromPlist for RawCodepoints {
+    fn parse(tokenizer: &mut Tokenizer<'_>) -> Result<Self, crate::plist::Error> {
+        fn scalar(tokenizer: &mut Tokenizer<'_>) -> Result<String, crate::plist::Error> {
+            match tokenizer.lex()? {
+                Token::Atom(val) => Ok(val.to_string()),
+                Token::String(val) => Ok(val.to_string()),
+                _ => Err(crate::plist::Error::ExpectedString),
+            }
+        }
+
+        let mut values = Vec::new();
+        if let Token::OpenParen = tokenizer.peek()? {
+            tokenizer.eat(b'(')?;
+            loop {
+                if tokenizer.eat(b')').is_ok() {
+                    break;
+                }
+                values.push(scalar(tokenizer)?);
+                if tokenizer.eat(b')').is_ok() {
+                    break;
+                }
+                tokenizer.eat(b',')?;
+            }
+        } else {
+            // `unicode = 0041,0061;` has also been seen
+            values.push(scalar(tokenizer)?);
+            while tokenizer.eat(b',').is_ok() {
+                values.push(scalar(tokenizer)?);
+            }
+        }
+        Ok(RawCodepoints(values.join(",")))
+    }
 }
 
 #[derive(Default, Clone, Debug, PartialEq, FromPlist)]
@@ -2242,8 +2284,7 @@ fn v2_to_v3_name(v2_prop: Option<&str>, v3_name: &str) -> Option<RawName> {
 
 impl RawFont {
     pub fn load_from_string(raw_content: &str) -> Result<Self, crate::plist::Error> {
-        let raw_content = preprocess_unparsed_plist(raw_content);
-        Self::parse_plist(&raw_content)
+        Self::parse_plist(raw_content)
     }
 
     pub fn load(glyphs_file: &path::Path) -> Result<Self, Error> {
@@ -2277,7 +2318,6 @@ impl RawFont {
                 let path = entry.path();
                 if path.extension() == Some(OsStr::new("glyph")) {
                     let glyph_data = fs::read_to_string(&path).map_err(Error::IoError)?;
-                    let glyph_data = preprocess_unparsed_plist(&glyph_data);
                     let glyph = RawGlyph::parse_plist(&glyph_data)
                         .map_err(|e| Error::ParseError(path.clone(), e.to_string()))?;
                     if glyph.glyphname.is_empty() {
@@ -3191,7 +3231,7 @@ impl RawGlyph {
 
         let codepoints = self
             .unicode
-            .map(|s| parse_codepoint_str(&s, format_version.codepoint_radix()))
+            .map(|s| parse_codepoint_str(&s.0, format_version.codepoint_radix()))
             .transpose()?
             .unwrap_or_default();
 
@@ -3804,15 +3844,6 @@ impl TryFrom<RawFont> for Font {
             custom_parameters,
         })
     }
-}
-
-fn preprocess_unparsed_plist(s: &str) -> Cow<'_, str> {
-    // Glyphs has a wide variety of unicode definitions, not all of them parser friendly
-    // Make unicode always a string, without any wrapping () so we can parse as csv, radix based on format version
-    let unicode_re =
-        Regex::new(r"(?m)^(?P<prefix>\s*unicode\s*=\s*)[(]?(?P<value>[0-9a-zA-Z,]+)[)]?;\s*$")
-            .unwrap();
-    unicode_re.replace_all(s, r#"$prefix"$value";"#)
 }
 
 fn variable_instance_for<'a>(instances: &'a [Instance], name: &str) -> Option<&'a Instance> {
@@ -4579,6 +4610,31 @@ mod tests {
         let node = parse_node_from_string("354 183 LINE SMOOTH {name = x;}").unwrap();
         assert_eq!((node.pt.x, node.pt.y), (354.0, 183.0));
         assert_eq!(node.node_type, NodeType::LineSmooth);
+    }
+
+    // the value of `unicode` must not depend on how the entry is laid out
+    #[test]
+    fn unicode_entry_layout_is_irrelevant() {
+        let raw = std::fs::read_to_string(glyphs3_dir().join("Unicode-UnquotedDecSequence.glyphs"))
+            .unwrap();
+        assert!(raw.contains("unicode = (1619,1764);"));
+        for layout in [
+            "unicode = (1619,1764);",
+            "unicode = (1619, 1764);",
+            "unicode = (\n1619,\n1764\n);",
+            "unicode=( 1619 ,1764 ) ;",
+            "\"unicode\" = (1619,1764);",
+            "unicode = \"1619,1764\";",
+            "category = Letter; unicode = (1619,1764);",
+        ] {
+            let font = Font::load_from_string(&raw.replace("unicode = (1619,1764);", layout))
+                .unwrap_or_else(|e| panic!("{layout:?}: {e}"));
+            assert_eq!(
+                BTreeSet::from([1619, 1764]),
+                font.glyphs.get("name").unwrap().unicode,
+                "{layout:?}"
+            );
+        }
     }
 
     #[test]
